@@ -32,16 +32,16 @@ mutual
     | .toList _ x => by simp [afterJs, afterJs_id x]
     | .toDict _ x => by simp [afterJs, afterJs_id x]
     | .stmt _ c => by simp [afterJs, afterJs_id c]
-    | .callFn name p params up it wr => by
+    | .callFn name p params up it wr rc => by
       cases params with
       | loadList ln lp ops => simp [afterJs, afterJsList_id ops]
       | _ => simp [afterJs]
     | .callMethod _ _ o ps => by simp [afterJs, afterJs_id o, afterJs_id ps]
-    | .repeat_ _ _ c l t s _ _ => by simp [afterJs, afterJs_id c, afterJsList_id l, afterJs_id s]
+    | .repeat_ _ _ c l t s _ _ _ => by simp [afterJs, afterJs_id c, afterJsList_id l, afterJs_id s]
     | .ifThen _ c a b => by simp [afterJs, afterJs_id c, afterJsList_id a, afterJsList_id b]
     | .jump .. => by simp [afterJs]
     | .jz .. => by simp [afterJs]
-    | .tell _ o l => by simp [afterJs, afterJs_id o, afterJsList_id l]
+    | .tell _ o l _ => by simp [afterJs, afterJs_id o, afterJsList_id l]
   theorem afterJsList_id : ∀ l : List Node, afterJsList l = l
     | [] => by simp [afterJsList]
     | x :: r => by simp [afterJsList, afterJs_id x, afterJsList_id r]
@@ -98,13 +98,27 @@ theorem lastNameGv_afterLingoButLast (gv : Bool) (l : List Node) : lastNameGv gv
 
 theorem afterLingo_isNone (x : Node) : (afterLingo x).isNone = x.isNone := by
   cases x <;> simp [afterLingo, Node.isNone]
-  rename_i n p ps up it wr
+  rename_i n p ps up it wr rc
   cases ps <;> simp [afterLingo, Node.isNone]
 
 theorem afterLingo_symName (x : Node) : (afterLingo x).symName? = x.symName? := by
   cases x <;> simp [afterLingo, Node.symName?]
-  rename_i n p ps up it wr
+  rename_i n p ps up it wr rc
   cases ps <;> simp [afterLingo, Node.symName?]
+
+theorem afterLingo_cls (x : Node) : (afterLingo x).cls = x.cls := by
+  cases x <;> simp [afterLingo, Node.cls]
+  rename_i n p ps up it wr rc
+  cases ps <;> simp [afterLingo, Node.cls]
+
+theorem goWord_afterLingoList (l : List Node) : goWord (afterLingoList l) = goWord l := by
+  match l with
+  | [] => simp [afterLingoList]
+  | [x] =>
+    cases x <;> simp [afterLingoList, afterLingo, goWord]
+    rename_i n p ps up it wr rc
+    cases ps <;> simp [afterLingo, goWord]
+  | x :: y :: r => simp [afterLingoList, goWord]
 
 theorem lingoStrsButLast_cons (x : Node) (l : List Node) (ind : Nat) :
     lingoStrsButLast (x :: l) ind = (if l.isEmpty then .ok [] else do
@@ -119,7 +133,7 @@ theorem afterLingoButLast_cons (x : Node) (l : List Node) :
 
 theorem clearParen_lingo_true (x : Node) (ind : Nat) : lingo true (clearParen x) ind = lingo true x ind := by
   cases x <;> simp [clearParen]
-  rename_i name pos params up it wr
+  rename_i name pos params up it wr rc
   cases params <;> simp [lingo]
 
 /-! ### Lingo after Lingo -/
@@ -128,16 +142,14 @@ mutual
   theorem lingo_afterLingo : ∀ (n : Node) (np : Bool) (ind : Nat), lingo np (afterLingo n) ind = lingo np n ind
     | .none, np, ind => by simp [afterLingo]
     | .leaf .., np, ind => by simp [afterLingo]
-    | .sym name p uh, np, ind => by
-      simp only [afterLingo, lingo, symLingo]
-      split <;> simp_all
+    | .sym name p uh, np, ind => by simp [afterLingo]
     | .unary op p x, np, ind => by simp [afterLingo, lingo, lingo_afterLingo x]
     | .binary op p l r, np, ind => by simp [afterLingo, lingo, lingo_afterLingo l, lingo_afterLingo r]
     | .spAssign p l r m, np, ind => by simp [afterLingo, lingo, lingo_afterLingo l, lingo_afterLingo r]
     | .strOp k p a b c, np, ind => by
       simp [afterLingo, lingo, lingo_afterLingo a, lingo_afterLingo b, lingo_afterLingo c, afterLingo_isNone]
     | .unaryStr op p t x, np, ind => by simp [afterLingo, lingo, lingo_afterLingo x]
-    | .propAcc p o pr, np, ind => by simp [afterLingo, lingo, lingo_afterLingo o]
+    | .propAcc p o pr, np, ind => by simp [afterLingo, lingo, lingo_afterLingo o, afterLingo_cls]
     | .keyAcc .., np, ind => by simp [afterLingo]
     | .menuItemAcc p m i, np, ind => by simp [afterLingo, lingo, lingo_afterLingo m, lingo_afterLingo i]
     | .menuItemsAcc p m, np, ind => by simp [afterLingo, lingo, lingo_afterLingo m]
@@ -145,25 +157,25 @@ mutual
     | .toList p x, np, ind => by
       cases x with
       | loadList ln lp ops => simp [afterLingo, lingo, lingoStrs_afterLingoList ops]
-      | callFn _ _ ps _ _ _ => cases ps <;> simp [afterLingo, lingo]
+      | callFn _ _ ps _ _ _ _ => cases ps <;> simp [afterLingo, lingo]
       | _ => simp [afterLingo, lingo]
     | .toDict p x, np, ind => by
       cases x with
       | loadList ln lp ops => simp [afterLingo, lingo, lingoPairs_afterLingoList ops]
-      | callFn _ _ ps _ _ _ => cases ps <;> simp [afterLingo, lingo]
+      | callFn _ _ ps _ _ _ _ => cases ps <;> simp [afterLingo, lingo]
       | _ => simp [afterLingo, lingo]
     | .stmt p c, np, ind => by
       simp [afterLingo, lingo, clearParen_lingo_true, lingo_afterLingo c]
-    | .callFn name p params up it wr, np, ind => by
+    | .callFn name p params up it wr rc, np, ind => by
       cases params with
       | loadList ln lp ops =>
         simp only [afterLingo, lingo]
         by_cases hs : (name == Name.s (S "sound")) = true
         · simp only [hs, if_true, afterLingoButLast_isEmpty, lastNameGv_afterLingoButLast, lingoStrsButLast_afterLingoButLast ops]
-        · simp only [hs, Bool.false_eq_true, if_false, afterLingoList_isEmpty, lingoStrs_afterLingoList ops]
+        · simp only [hs, Bool.false_eq_true, if_false, afterLingoList_isEmpty, lingoStrs_afterLingoList ops, goWord_afterLingoList]
       | _ => simp [afterLingo, lingo]
     | .callMethod n p o ps, np, ind => by simp [afterLingo, lingo, lingo_afterLingo o, lingo_afterLingo ps]
-    | .repeat_ p e c l t s v sg, np, ind => by
+    | .repeat_ p e c l t s v sg vr, np, ind => by
       simp only [afterLingo, lingo, lingo_afterLingo c, lingoStmts_afterLingoList l, lingoRight_afterLingo c]
       by_cases ht : t = S "while"
       · simp [ht]
@@ -172,7 +184,7 @@ mutual
       simp [afterLingo, lingo, lingo_afterLingo c, lingoStmts_afterLingoList a, lingoStmts_afterLingoList b, afterLingoList_isEmpty]
     | .jump .., np, ind => by simp [afterLingo]
     | .jz .., np, ind => by simp [afterLingo, lingo]
-    | .tell p o l, np, ind => by simp [afterLingo, lingo, lingo_afterLingo o, lingoStmts_afterLingoList l]
+    | .tell p o l cl, np, ind => by simp [afterLingo, lingo, lingo_afterLingo o, lingoStmts_afterLingoList l]
   theorem lingoStrs_afterLingoList : ∀ (l : List Node) (gv : Bool) (ind : Nat), lingoStrs gv (afterLingoList l) ind = lingoStrs gv l ind
     | [], gv, ind => by simp [afterLingoList]
     | [x], gv, ind => by
@@ -192,7 +204,7 @@ mutual
       simp
   theorem lingoRight_afterLingo : ∀ (c : Node), lingoRight (afterLingo c) = lingoRight c
     | .binary op p l r => by simp [afterLingo, lingoRight, lingo_afterLingo r]
-    | .callFn name p params up it wr => by cases params <;> simp [afterLingo, lingoRight]
+    | .callFn name p params up it wr rc => by cases params <;> simp [afterLingo, lingoRight]
     | .none => by simp [afterLingo, lingoRight]
     | .leaf .. => by simp [afterLingo, lingoRight]
     | .sym .. => by simp [afterLingo, lingoRight]
@@ -227,30 +239,30 @@ end
 
 theorem afterLingo_name (x : Node) : (afterLingo x).name = x.name := by
   cases x <;> simp [afterLingo, Node.name]
-  rename_i n p ps up it wr
+  rename_i n p ps up it wr rc
   cases ps <;> simp [afterLingo, Node.name]
 
 theorem afterLingo_withResult (x : Node) : (afterLingo x).withResult = x.withResult := by
   cases x <;> simp [afterLingo, Node.withResult]
-  rename_i n p ps up it wr
+  rename_i n p ps up it wr rc
   cases ps <;> simp [afterLingo, Node.withResult]
 
 theorem afterLingo_isMenusVar (x : Node) : (afterLingo x).isMenusVar = x.isMenusVar := by
   cases x <;> simp [afterLingo, Node.isMenusVar]
-  rename_i n p ps up it wr
+  rename_i n p ps up it wr rc
   cases ps <;> simp [afterLingo, Node.isMenusVar]
 
 theorem symToGv_afterLingo_name (x : Node) : (symToGv (afterLingo x)).name = (symToGv x).name := by
   cases x <;> simp [afterLingo, symToGv, Node.name]
-  rename_i n p ps up it wr
+  rename_i n p ps up it wr rc
   cases ps <;> simp [afterLingo, symToGv, Node.name]
 
 theorem clearParen_withResult (x : Node) : (clearParen x).withResult = x.withResult := by
   cases x <;> simp [clearParen, Node.withResult]
 
-theorem clearParen_js (fm : Bool) (x : Node) (ind : Nat) : js fm (clearParen x) ind = js fm x ind := by
+theorem clearParen_js (fm tgt : Bool) (x : Node) (ind : Nat) : js fm tgt (clearParen x) ind = js fm tgt x ind := by
   cases x <;> simp [clearParen]
-  rename_i name pos params up it wr
+  rename_i name pos params up it wr rc
   cases params <;> simp [js]
 
 theorem jsNames_afterLingoList (l : List Node) : jsNames (afterLingoList l) = jsNames l := by
@@ -289,42 +301,42 @@ theorem jsStrs_cons (fm gv : Bool) (x : Node) (l : List Node) (ind : Nat) :
     jsStrs fm gv (x :: l) ind = (if l.isEmpty then
       (match (if gv then x.symName? else none) with
        | some n => .ok [S "_global." ++ n.str]
-       | none => do let t ← js fm x ind; pure [t.str])
+       | none => do let t ← js fm false x ind; pure [t.str])
     else do
-      let t ← js fm x ind
+      let t ← js fm false x ind
       let ts ← jsStrs fm gv l ind
       pure (t.str :: ts)) := by
   cases l <;> simp [jsStrs] <;> rfl
 
 mutual
-  theorem js_afterLingo : ∀ (n : Node) (fm : Bool) (ind : Nat), js fm (afterLingo n) ind = js fm n ind
-    | .none, fm, ind => by simp [afterLingo]
-    | .leaf .., fm, ind => by simp [afterLingo]
-    | .sym name p uh, fm, ind => by simp [afterLingo, js]
-    | .unary op p x, fm, ind => by simp [afterLingo, js, js_afterLingo x]
-    | .binary op p l r, fm, ind => by simp [afterLingo, js, js_afterLingo l, js_afterLingo r]
-    | .spAssign p l r m, fm, ind => by simp [afterLingo, js, js_afterLingo l, js_afterLingo r]
-    | .strOp k p a b c, fm, ind => by
+  theorem js_afterLingo : ∀ (n : Node) (fm tgt : Bool) (ind : Nat), js fm tgt (afterLingo n) ind = js fm tgt n ind
+    | .none, fm, tgt, ind => by simp [afterLingo]
+    | .leaf .., fm, tgt, ind => by simp [afterLingo]
+    | .sym name p uh, fm, tgt, ind => by simp [afterLingo, js]
+    | .unary op p x, fm, tgt, ind => by simp [afterLingo, js, js_afterLingo x]
+    | .binary op p l r, fm, tgt, ind => by simp [afterLingo, js, js_afterLingo l, js_afterLingo r]
+    | .spAssign p l r m, fm, tgt, ind => by simp [afterLingo, js, js_afterLingo l, js_afterLingo r]
+    | .strOp k p a b c, fm, tgt, ind => by
       simp [afterLingo, js, js_afterLingo a, js_afterLingo b, js_afterLingo c, afterLingo_isNone]
-    | .unaryStr op p t x, fm, ind => by simp [afterLingo, js, js_afterLingo x, afterLingo_isMenusVar]
-    | .propAcc p o pr, fm, ind => by simp [afterLingo, js, js_afterLingo o]
-    | .keyAcc .., fm, ind => by simp [afterLingo]
-    | .menuItemAcc p m i, fm, ind => by simp [afterLingo, js, js_afterLingo m, js_afterLingo i]
-    | .menuItemsAcc p m, fm, ind => by simp [afterLingo, js, js_afterLingo m]
-    | .loadList n p ops, fm, ind => by simp [afterLingo, js, jsStrs_afterLingoList ops]
-    | .toList p x, fm, ind => by
+    | .unaryStr op p t x, fm, tgt, ind => by simp [afterLingo, js, js_afterLingo x, afterLingo_isMenusVar]
+    | .propAcc p o pr, fm, tgt, ind => by simp [afterLingo, js, js_afterLingo o]
+    | .keyAcc .., fm, tgt, ind => by simp [afterLingo]
+    | .menuItemAcc p m i, fm, tgt, ind => by simp [afterLingo, js, js_afterLingo m, js_afterLingo i]
+    | .menuItemsAcc p m, fm, tgt, ind => by simp [afterLingo, js, js_afterLingo m]
+    | .loadList n p ops, fm, tgt, ind => by simp [afterLingo, js, jsStrs_afterLingoList ops]
+    | .toList p x, fm, tgt, ind => by
       cases x with
       | loadList ln lp ops => simp [afterLingo, js, jsStrs_afterLingoList ops]
-      | callFn _ _ ps _ _ _ => cases ps <;> simp [afterLingo, js]
+      | callFn _ _ ps _ _ _ _ => cases ps <;> simp [afterLingo, js]
       | _ => simp [afterLingo, js]
-    | .toDict p x, fm, ind => by
+    | .toDict p x, fm, tgt, ind => by
       cases x with
       | loadList ln lp ops => simp [afterLingo, js, jsStrs_afterLingoList ops]
-      | callFn _ _ ps _ _ _ => cases ps <;> simp [afterLingo, js]
+      | callFn _ _ ps _ _ _ _ => cases ps <;> simp [afterLingo, js]
       | _ => simp [afterLingo, js]
-    | .stmt p c, fm, ind => by
+    | .stmt p c, fm, tgt, ind => by
       simp [afterLingo, js, clearParen_js, clearParen_withResult, afterLingo_withResult, js_afterLingo c]
-    | .callFn name p params up it wr, fm, ind => by
+    | .callFn name p params up it wr rc, fm, tgt, ind => by
       cases params with
       | loadList ln lp ops =>
         simp only [afterLingo, js]
@@ -334,17 +346,17 @@ mutual
         · simp only [hs, Bool.false_eq_true, if_false, afterLingoList_isEmpty, jsStrs_afterLingoList ops, jsNames_afterLingoList,
             lastNameGv_afterLingoList]
       | _ => simp [afterLingo, js]
-    | .callMethod n p o ps, fm, ind => by simp [afterLingo, js, js_afterLingo o, js_afterLingo ps]
-    | .repeat_ p e c l t s v sg, fm, ind => by
+    | .callMethod n p o ps, fm, tgt, ind => by simp [afterLingo, js, js_afterLingo o, js_afterLingo ps]
+    | .repeat_ p e c l t s v sg vr, fm, tgt, ind => by
       simp only [afterLingo, js, js_afterLingo c, jsStmts_afterLingoList l]
       by_cases ht : t = S "while"
       · simp [ht]
       · simp [ht, js_afterLingo s]
-    | .ifThen p c a b, fm, ind => by
+    | .ifThen p c a b, fm, tgt, ind => by
       simp [afterLingo, js, js_afterLingo c, jsStmts_afterLingoList a, jsStmts_afterLingoList b, afterLingoList_isEmpty]
-    | .jump .., fm, ind => by simp [afterLingo]
-    | .jz .., fm, ind => by simp [afterLingo, js]
-    | .tell p o l, fm, ind => by simp [afterLingo, js, js_afterLingo o, jsStmts_afterLingoList l]
+    | .jump .., fm, tgt, ind => by simp [afterLingo]
+    | .jz .., fm, tgt, ind => by simp [afterLingo, js]
+    | .tell p o l cl, fm, tgt, ind => by simp [afterLingo, js, js_afterLingo o, jsStmts_afterLingoList l]
   theorem jsStrs_afterLingoList : ∀ (l : List Node) (fm gv : Bool) (ind : Nat), jsStrs fm gv (afterLingoList l) ind = jsStrs fm gv l ind
     | [], fm, gv, ind => by simp [afterLingoList]
     | [x], fm, gv, ind => by simp [afterLingoList, jsStrs, js_afterLingo x, afterLingo_symName]
@@ -445,7 +457,7 @@ theorem endsWithExit_eq (l : List Node) : endsWithExit l = match l.getLast? with
 
 theorem exitView_afterLingo (x : Node) : exitView (afterLingo x) = exitView x := by
   cases x <;> simp [afterLingo, exitView, clearParen_name, afterLingo_name]
-  rename_i n p ps up it wr
+  rename_i n p ps up it wr rc
   cases ps <;> simp [afterLingo, exitView]
 
 theorem endsWithExit_afterLingoList (l : List Node) : endsWithExit (afterLingoList l) = endsWithExit l := by
